@@ -19,6 +19,7 @@ RULE = ("the interleaved event log (consumer step, pull(src,pos), end(src), call
         "groups, lock-step with itertools.groupby) and the short-circuiting aggregations all/any; instrumented source "
         "flavours sync_iter/sync_gen/getitem_seq/async_gen/async_class, callables def/async def; non-trivial = at "
         "least one pull and (a source ended, or an early exit, or a callable was invoked); distinct = spec+flavours")
+RULE += (' Also: ONE iterator passed as several arguments; sized containers (list, tuple) among one-shot iterators; groupby with a key that fails once while the consumer carries on; a plain list changed (append/pop/replace/insert/clear) while the tool is part-way through it; group handles closed.')
 ASSUMPTIONS = ["stdlib 3.12 is the reference; events compared are exactly pulls, end checks, calls, yields",
                "generator-flavoured sources are compared with generator twins (a pull after exhaustion is invisible there)",
                "accumulate([]) without initial: only the pull/end events before the documented TypeError are compared"]
